@@ -83,6 +83,10 @@ func genMembers(seed int64, allow map[string]bool) *Scenario {
 		case 9:
 			return Op{Op: "leave", IDs: []string{"@out", "@unknown"}}
 		case 10:
+			if r.Intn(2) == 0 {
+				// a batch at least as long as the player list may name somebody twice and still let another player stay
+				return Op{Op: "leave", IDs: []string{"@out", "@out", "@out", "@out"}[:2+r.Intn(3)]}
+			}
 			return Op{Op: "leave", IDs: []string{"@out", "@out"}}
 		case 11: // batch: fixed + random, maybe too many, maybe a duplicate seat / a seated id
 			js := []JoinSpec{}
@@ -221,7 +225,15 @@ func genLife(seed int64, allow map[string]bool) *Scenario {
 		if r.Intn(6) == 0 {
 			// the open trigger completes while the table is still publishing the last closed round of the running hand
 			// (the hand wrapper already holds the closed hand)
-			hp.Inj = append(hp.Inj, Inj{At: "g:ugs.enter@closing", Ops: []Op{{Op: "setup", IDs: []string{"*"}}, {Op: "finishall"}, {Op: "sleep", Amt: 30}}})
+			switch r.Intn(4) {
+			case 0:
+				hp.Inj = append(hp.Inj, Inj{At: "g:ugs.enter@closing", Ops: []Op{{Op: "pause"}}}) // the closed hand must still be settled
+			case 1:
+				hp.Inj = append(hp.Inj, Inj{At: "g:ugs.enter@closing", Ops: []Op{{Op: "close"}}})
+				ended = true
+			default:
+				hp.Inj = append(hp.Inj, Inj{At: "g:ugs.enter@closing", Ops: []Op{{Op: "setup", IDs: []string{"*"}}, {Op: "finishall"}, {Op: "sleep", Amt: 30}}})
+			}
 		}
 		for i, kk := 0, r.Intn(4); i < kk; i++ {
 			at := phases[r.Intn(len(phases))]
@@ -324,8 +336,9 @@ func genHand(seed int64, allow map[string]bool) *Scenario {
 			kind := kinds[r.Intn(len(kinds))]
 			o := Op{Op: "act", Who: who, Kind: kind, Amt: int64(1 + r.Intn(9))}
 			if who == "cur" {
-				// the mover's own wager actions are the betting line itself (policy); here only what must be refused
-				o.Kind = []string{"ready", "pay", "pass"}[r.Intn(3)]
+				// the mover's own wager actions are the betting line itself (policy); here only what must be refused:
+				// collection answers, a pass, or a wager kind the hand does not offer him at this moment ("illegal")
+				o.Kind = []string{"ready", "pay", "pass", "illegal", "illegal"}[r.Intn(5)]
 			}
 			if r.Intn(8) == 0 {
 				o = Op{Op: "extend", ID: "@any", Amt: int64(1 + r.Intn(30))}
@@ -494,6 +507,13 @@ func genTimeout(seed int64, allow map[string]bool) *Scenario {
 	b.sc.N = 2 + r.Intn(5)
 	b.sc.Blind = []int64{1, int64(seed % 2), 0, 1, 2}
 	b.seatPlayers(2 + r.Intn(min(b.sc.N-1, 3)))
+	if seed%2 == 0 && len(b.ids)+2 <= b.sc.N {
+		// two more players buy in and leave the sitting in to the table's own 17 s timer; one of them goes away before it fires
+		w1, w2 := b.newID(), b.newID()
+		b.add(Op{Op: "reserve", ID: w1, Seat: -1, Chips: 12})
+		b.add(Op{Op: "reserve", ID: w2, Seat: -1, Chips: 14})
+		b.add(Op{Op: "leave", IDs: []string{w1}})
+	}
 	b.add(Op{Op: "start"})
 	hp := b.plan()
 	phases := []string{"blinds", "ready1", "ready2", "blinds", "ready3"}
